@@ -93,6 +93,7 @@ class _Env:
         env = self
 
         self.contents = {}
+        self.raised_objects = {}
 
         # the patch targets: an instance, its class, the class's base class; every setattr / delattr on any of
         # them is logged with the key of (object, name)
@@ -203,11 +204,21 @@ class _Env:
                 except BaseException:
                     infos.append(sys.exc_info())
             return testtools.MultipleExceptions(*infos)
+        # a program flagged same_exc raises ONE exception object per description: a stored error raised by the body
+        # and again by tearDown, a MultipleExceptions naming one error twice (each raise still counts: the model
+        # does not know object identity)
+        same = bool(getattr(self, "prog", None) and self.prog.get("same_exc"))
+        if same and repr(e) in self.raised_objects:
+            return self.raised_objects[repr(e)]
         k = self.cls(e[1])
         if e[1] == "Mismatch":
             from testtools.matchers import Equals
-            return k(1, Equals(2), Equals(2).match(1))
-        return k("r%d" % e[2]) if e[2] is not None else k()
+            x = k(1, Equals(2), Equals(2).match(1))
+        else:
+            x = k("r%d" % e[2]) if e[2] is not None else k()
+        if same:
+            self.raised_objects[repr(e)] = x
+        return x
 
     def content(self, loc):
         """the Content of a live source (cell loc); the source hands out the same object every time"""
